@@ -63,7 +63,7 @@ func newDecoratorAdapter(w *vw.World, cfg *vw.CtlConfig) (*decoratorAdapter, err
 	}
 	var err error
 	c.customize, err = customize.NewCustomizeManager(dc.Name, c.enqueueParentObject, dc, w.DynClient,
-		&dynamicinformer.SharedInformerFactory{}, c.parentInformers, c.parentKinds, c.logger, common.CompositeController)
+		relatedFactory(w, cfg), c.parentInformers, c.parentKinds, c.logger, common.CompositeController)
 	if err != nil {
 		return nil, err
 	}
@@ -92,7 +92,7 @@ func newDecoratorAdapter(w *vw.World, cfg *vw.CtlConfig) (*decoratorAdapter, err
 	if cfg.CustomizeHook {
 		c.customize.VerifSetHook(hooks.NewVerifHook(w.Hooks, vw.CustomizeURL, common.CustomizeHook, cfg.Mode(), false, 0, nil))
 		for _, d := range w.Sim.Defs() {
-			if d.Resource == "controllerrevisions" {
+			if d.Resource == "controllerrevisions" || cfg.RealRelatedInformers {
 				continue
 			}
 			c.customize.VerifSetRelatedInformer(d.GVR(), w.Informers[d.Resource])
@@ -169,4 +169,11 @@ func (d *c20DecoratorDriver) Running() map[string][2]string {
 		out[n] = [2]string{fmt.Sprintf("%p", c), string(b)}
 	}
 	return out
+}
+
+func relatedFactory(w *vw.World, cfg *vw.CtlConfig) *dynamicinformer.SharedInformerFactory {
+	if cfg.RealRelatedInformers {
+		return dynamicinformer.NewSharedInformerFactory(w.DynClient, 10*time.Minute)
+	}
+	return &dynamicinformer.SharedInformerFactory{}
 }
